@@ -312,10 +312,7 @@ impl LuaDocLexer<'_> {
             }
             ch if ch == '"' || ch == '\'' => {
                 reader.bump();
-                reader.eat_while(|c| c != ch);
-                if reader.current_char() == ch {
-                    reader.bump();
-                }
+                eat_doc_string_body(reader, ch);
 
                 LuaTokenKind::TkString
             }
@@ -637,10 +634,7 @@ impl LuaDocLexer<'_> {
             }
             ch if ch == '"' || ch == '\'' => {
                 reader.bump();
-                reader.eat_while(|c| c != ch);
-                if reader.current_char() == ch {
-                    reader.bump();
-                }
+                eat_doc_string_body(reader, ch);
                 LuaTokenKind::TkString
             }
             '.' if reader.next_char().is_ascii_digit() => self.lex_number(),
@@ -854,6 +848,21 @@ fn to_token_or_name(text: &str) -> LuaTokenKind {
         "or" => LuaTokenKind::TkOr,
         "else" => LuaTokenKind::TkDocElse,
         _ => LuaTokenKind::TkName,
+    }
+}
+
+/// Consumes the rest of a quoted string after its opening quote. A backslash takes the next
+/// character with it (the string's value is unescaped later), so `"a\"b"` is one token.
+fn eat_doc_string_body(reader: &mut Reader, quote: char) {
+    while !reader.is_eof() {
+        let ch = reader.current_char();
+        reader.bump();
+        if ch == quote {
+            break;
+        }
+        if ch == '\\' && !reader.is_eof() {
+            reader.bump();
+        }
     }
 }
 
